@@ -2,6 +2,7 @@
 #include <ctype.h>
 #include <stdio.h>
 #include <eav/private.h>
+#include <eav/verif_hooks.h>
 
 /*
  * local-part = dot-atom / quoted-string / obs-local-part
@@ -42,7 +43,10 @@ is_5322_local (const char *start, const char *end)
     if (start == end)
         return inverse(EEAV_LPART_EMPTY);
 
-    for (cp = start; cp < end && (ch = *(unsigned char *) cp) != 0; cp++) {
+    for (cp = start; cp < end && (ch = *(unsigned char *) cp) != 0; cp++)
+    EAV_VERIF_LOOP(is_5322_local)
+    {
+        EAV_VERIF_STEP(is_5322_local)
         if (ch > 127)
             return inverse(EEAV_LPART_NOT_ASCII);
         if (!quote) {
